@@ -2,7 +2,6 @@ package c15
 
 import (
 	"fmt"
-	"sort"
 	"strings"
 
 	"wrverif/mp"
@@ -13,9 +12,9 @@ import (
 
 // linksCorr is the L1 correspondence for the model of resolveLinks (WR/C15/Model.lean): the real
 // function is called on the rendered document (hook VerifC15ResolveLinks), the model gets the same
-// per-page anchor maps (entries in NAME order — any order is as good, the theorem
-// anchors_perm_invariant_partial says the per-page result is determined up to a permutation) and
-// the same links.  Compared: links per page exactly; anchors per page as sets (plus the count).
+// per-page anchor maps (entries in the order Go's map iteration happens to give here — the theorem
+// resolve_links_perm_invariant says the order is irrelevant) and the same links.
+// Compared exactly: links per page, anchors per page IN ORDER.
 func linksCorr(m *mp.Model, d Doc, rd *render.Doc, out *res.Result) {
 	doc := rd.Out
 	pages := []sx.X{sx.A("pages")}
@@ -24,10 +23,9 @@ func linksCorr(m *mp.Model, d Doc, rd *render.Doc, out *res.Result) {
 	for _, p := range doc.Pages {
 		am := p.VerifC15Anchors()
 		names := make([]string, 0, len(am))
-		for k := range am {
+		for k := range am { // map order on purpose
 			names = append(names, k)
 		}
-		sort.Strings(names)
 		var es []sx.X
 		for _, n := range names {
 			es = append(es, sx.L(sx.S(n), sx.S(fmt.Sprint(am[n][0], ",", am[n][1]))))
@@ -61,7 +59,6 @@ func linksCorr(m *mp.Model, d Doc, rd *render.Doc, out *res.Result) {
 		for _, a := range pa {
 			s = append(s, a.Name+"|"+fmt.Sprint(a.X, ",", a.Y))
 		}
-		sort.Strings(s)
 		ia = append(ia, strings.Join(s, ";"))
 	}
 	for _, pl := range ans.Xs[1].Xs[1:] {
@@ -76,7 +73,6 @@ func linksCorr(m *mp.Model, d Doc, rd *render.Doc, out *res.Result) {
 		for _, a := range pa.Xs {
 			s = append(s, a.Xs[0].S+"|"+a.Xs[1].S)
 		}
-		sort.Strings(s)
 		ma = append(ma, strings.Join(s, ";"))
 	}
 	out.Hit("corr:resolveLinks")
@@ -86,7 +82,7 @@ func linksCorr(m *mp.Model, d Doc, rd *render.Doc, out *res.Result) {
 	I, M := strings.Join(il, "\n")+"\n--\n"+strings.Join(ia, "\n"), strings.Join(ml, "\n")+"\n--\n"+strings.Join(ma, "\n")
 	if I != M {
 		out.Add(res.Finding{Kind: "corr", Op: "corr:resolveLinks", Input: d.HTML, Impl: I, Model: M,
-			Reason: "resolveLinks (real) and the model differ beyond the order of the anchors inside a page", Seed: d.Seed})
+			Reason: "resolveLinks (real) and the model differ", Seed: d.Seed})
 	}
 }
 
@@ -100,9 +96,9 @@ func witnessCorr(m *mp.Model, out *res.Result) error {
 		{`(grid-span (fr 1 1 1) 2 ((0 0 1) (2 2 1) (3 2 1) (1 0 2)))`, `(ok (1) () ())`},
 		{`(lang-quotes "fr_CHx" (("fr" "a") ("fr_CH" "b")))`, `(ok "a")`},
 		{`(lang-quotes "fr_CHx" (("fr_CH" "b") ("fr" "a")))`, `(ok "b")`},
-		{`(resolve-links (pages (("a" "1") ("b" "2"))) (links ()))`, `(ok (links ()) (anchors (("a" "1") ("b" "2"))) (names "a" "b"))`},
-		{`(resolve-links (pages (("b" "2") ("a" "1"))) (links ()))`, `(ok (links ()) (anchors (("b" "2") ("a" "1"))) (names "b" "a"))`},
-		{`(resolve-links-sorted (pages (("b" "2") ("a" "1"))) (links ()))`, `(ok (links ()) (anchors (("a" "1") ("b" "2"))) (names "a" "b"))`},
+		{`(resolve-links-before-fix (pages (("a" "1") ("b" "2"))) (links ()))`, `(ok (links ()) (anchors (("a" "1") ("b" "2"))) (names "a" "b"))`},
+		{`(resolve-links-before-fix (pages (("b" "2") ("a" "1"))) (links ()))`, `(ok (links ()) (anchors (("b" "2") ("a" "1"))) (names "b" "a"))`},
+		{`(resolve-links (pages (("b" "2") ("a" "1"))) (links ()))`, `(ok (links ()) (anchors (("a" "1") ("b" "2"))) (names "a" "b"))`},
 	} {
 		q, err := sx.Parse(c[0])
 		if err != nil {
